@@ -9,6 +9,7 @@ prop(
         dict(run="^TestPropExcluded$",
              quick=dict(checks=24000, shards=16, timeout=900),
              thorough=dict(checks=320000, shards=16, timeout=7200)),
+        dict(run="^$", fuzz="FuzzMask", thorough=dict(fuzztime="420s", timeout=1200)),
     ],
     rule="generated rule files x insertion point (top / between rules / between groups / bottom) x exclusion form (ignore/line, ignore/next-line, "
          "ignore/begin..end, ignore/file, two adjacent forms) x payload lines drawn from a pool (Jinja, broken YAML, unbalanced quotes, tabs, "
